@@ -192,6 +192,25 @@ func cmdCheck(args []string) {
 			fails = append(fails, failT{r, i, o})
 		}
 	}
+	// undecided obligations (unknown/timeout, typically under machine load) get a final, sequential attempt with the machine
+	// to themselves and three times the portfolio timeout; only what is still undecided then is reported
+	if len(fails) > 0 && len(fails) <= 40 {
+		var still []failT
+		for _, f := range fails {
+			if f.o.Status == "sat" || f.o.Status == "error" {
+				still = append(still, f)
+				continue
+			}
+			portfolio(f.r, f.i, timeout*3)
+			if f.o.Status == "unsat" {
+				f.o.Solver += " (final retry)"
+				nOK++
+				continue
+			}
+			still = append(still, f)
+		}
+		fails = still
+	}
 	// replay counterexamples on the real code (in parallel, capped)
 	const maxReplays = 16
 	replays := make([]map[string]interface{}, len(fails))
